@@ -105,6 +105,17 @@ def gen_cases(chk, n, table):
             c["bad"] = "basename-" + c["basename_kind"]
         elif r < 0.39:
             c["bad"] = "two-basenames"
+        elif r < 0.44 and r >= 0.41 and c["mdl"]:
+            # a direction or an aperture that is not a number (what a script computing acos(1.0000001) hands over): not a supported value
+            c["bad"] = "mdl-nan-angle"
+            kk = rng.choice(["phi", "theta", "aperture"])
+            c["mdl"][kk] = float("nan")
+            if kk not in c["mdl"]["given"]:
+                c["mdl"]["given"].append(kk)
+            if "label" not in c["mdl"]["given"]:
+                c["mdl"]["given"].append("label")
+            if c["mdl"]["label"] == "":
+                c["mdl"]["label"] = "all"
         elif r < 0.41 and c["mdl"]:
             c["bad"] = "mdl-bad-label"
             c["mdl"]["label"] = "muon"
@@ -132,6 +143,11 @@ def gen_cases(chk, n, table):
         m["given"] = [k]
         cases.append({"id": n + j, "cat": "background", "nuclide": ["Cs137+Ba137m", "Co60", "Bi214+Po214", "K40", "Tl208"][j], "seed": 314159 + j, "n": 7, "level": None, "mode": None,
                       "emin": None, "emax": None, "activity": None, "mdl": m, "extra": [], "bad": None, "basename_kind": "ok", "order": j})
+    for j, kk in enumerate(["phi", "theta", "aperture"]):
+        m = {"label": "e-", "rank": 0, "phi": 45.0, "theta": 90.0, "aperture": 30.0, "given": ["label", "rank", "phi", "theta", "aperture"]}
+        m[kk] = float("nan")
+        cases.append({"id": n + 50 + j, "cat": "background", "nuclide": "Co60", "seed": 77 + j, "n": 3, "level": None, "mode": None, "emin": None, "emax": None, "activity": None,
+                      "mdl": m, "extra": [], "bad": "mdl-nan-angle", "basename_kind": "ok", "order": j})
     # every published nuclide of both list files (read from the files, not from the library's accessors) once, in every run: the driver
     # validates names against its own copy of the lists
     k = 0
